@@ -195,6 +195,7 @@ func init() {
 		r.Explanation = "Decides the structural side of the text/JSON round trips: every hand-written JSON encoder has a decoder (J1); writer layouts/formats are accepted by the reader (J2: date, date-time incl. the zone-abbreviation fallback, HH:mm format vs pattern, PIN width 999999 vs {0,6}); numeric task-type bounds agree with the 13-entry table in both parsers (J3); control-state and weekday texts map back to the value that writes them (J4); decoders that store into a map behind their receiver establish it non-nil first (J5); HH:mm parsers enforce 00:00..24:00 with minutes <= 59 (K10); the four address types delegate to their role parser (AD0). Not decided: value-level equality decode(encode(v)) for every value, nor encoding/json's and time's parsing of arbitrary text (zone abbreviations etc.)."
 		r.Assumptions = []string{"encoding/json and package time parse as documented", "go/ssa is faithful"}
 		RuleJSON(r, p)
+		RuleJSONStructs(r, p)
 		RuleK10(r, p)
 		RuleAddr(r, p)
 	}
